@@ -4,7 +4,7 @@
    hand models that are run against the real code on every run. *)
 From Coq Require Import ZArith List Bool.
 From MomoCommon Require Import GenPrelude.
-From C09 Require Gen_UIntMath Gen_MemPoolConst Gen_MemPool PoolLayout PoolLinks PoolArith PoolLinksProofs PoolModel PoolConc PoolConcProofs PoolInv PoolAddr.
+From C09 Require Gen_UIntMath Gen_MemPoolConst Gen_MemPool PoolLayout PoolLinks PoolArith PoolLinksProofs PoolModel PoolConc PoolConcProofs PoolInv PoolAddr PoolCompl PoolOne.
 Import ListNotations.
 Local Open Scope Z_scope.
 
@@ -358,7 +358,7 @@ Proof. exact PoolInv.MergeFrom_J. Qed.
 Print Assumptions C09_inv_MergeFrom.
 
 (* THE INVARIANT HOLDS AFTER EVERY HISTORY of Allocate / Deallocate (of a block that is live in that pool; other Deallocates
-   are outside the pool's contract and ignored) / MergeFrom / DeallocateAll on both pools, for every blockCount >= 1, cache size and
+   are outside the pool's contract and ignored) / MergeFrom / DeallocateAll / Swap / move assignment on both pools, for every blockCount >= 1, cache size and
    pvUseCache value. *)
 Theorem C09_inv_all_histories : forall C, 1 <= C -> forall CF uc ops,
   PoolInv.J C (PoolInv.grun C CF uc ops) /\ PoolInv.nocache uc (PoolInv.grun C CF uc ops).
@@ -470,3 +470,37 @@ Theorem C09_every_buffer_returned_at_most_once : forall C, 1 <= C -> forall CF u
   NoDup (PoolConc.returned (PoolInv.grun C CF uc ops)).
 Proof. exact PoolInv.returned_once. Qed.
 Print Assumptions C09_every_buffer_returned_at_most_once.
+
+(* Swap and move assignment (pool d = std::move(other), legal when d has no allocated block; the old state's destructor runs
+   DeallocateAll) keep the invariant; they are part of the history alphabet of C09_inv_all_histories / C09_end_to_end. *)
+Theorem C09_inv_Swap : forall C w, PoolInv.J C w -> PoolInv.J C (PoolConc.Swap w).
+Proof. exact PoolInv.Swap_J. Qed.
+Print Assumptions C09_inv_Swap.
+
+Theorem C09_inv_MoveAssign : forall C w d, PoolInv.J C w -> PoolInv.J C (PoolConc.MoveAssign w d).
+Proof. exact PoolInv.MoveAssign_J. Qed.
+Print Assumptions C09_inv_MoveAssign.
+
+(* completeness clause (every block of an owned buffer is in its chain, live, cached or the block in transit): defined in
+   PoolCompl.v with a general transfer lemma and preserved by the counter/ghost and cache steps.  NOT yet carried through
+   take / attach_new / pvDeleteBlock / MergeFrom / DeallocateAll, hence no DeallocateIf theorem (see NOTES.md). *)
+Theorem C09_compl_partial_ghost_steps : forall C q bk w,
+  (PoolCompl.Compl C q (Some bk) w -> PoolCompl.Compl C q None (PoolConc.add_live w q bk)) /\
+  (PoolCompl.Compl C q None w -> PoolCompl.Compl C q (Some bk) (PoolConc.remove_live w q bk)) /\
+  (PoolCompl.Compl C q (Some bk) w -> PoolCompl.Compl C q None (PoolConc.set_cache w q (bk :: PoolConc.cache (PoolConc.getp w q)))).
+Proof. exact PoolCompl.ghost_steps. Qed.
+Print Assumptions C09_compl_partial_ghost_steps.
+
+(* blockCount = 1, address level: two different blocks of single-block pools (two manager allocations that do not overlap) are
+   aligned, inside their manager blocks and disjoint, for every alignment 1..1024 and all 16-aligned manager addresses.  The
+   history-level invariant of the single-block model PoolOne.v (Inv1) is stated but NOT proved. *)
+Theorem C09_block1_addresses_partial : forall B A beg b b',
+  1 <= A <= 1024 -> 0 < B < 2 ^ 62 ->
+  (forall x, 0 < beg x /\ beg x mod 16 = 0 /\ beg x + B + A + 2 < 2 ^ 64) ->
+  b <> b' ->
+  (beg b + PoolOne.size1 B A beg b <= beg b' \/ beg b' + PoolOne.size1 B A beg b' <= beg b) ->
+  PoolOne.addr1 B A beg b mod A = 0 /\ beg b <= PoolOne.addr1 B A beg b /\
+  PoolOne.addr1 B A beg b + B <= beg b + PoolOne.size1 B A beg b /\
+  (PoolOne.addr1 B A beg b + B <= PoolOne.addr1 B A beg b' \/ PoolOne.addr1 B A beg b' + B <= PoolOne.addr1 B A beg b).
+Proof. exact PoolOne.one_block_addresses. Qed.
+Print Assumptions C09_block1_addresses_partial.
